@@ -195,7 +195,7 @@ func lowerCamel(s string) string {
 }
 
 // identifiers the harness files themselves use at file scope
-var harnessNames = map[string]bool{"probe": true, "fmt": true, "ext": true, "xt": true, "context": true, "kessoku": true, "reflect": true}
+var harnessNames = map[string]bool{"probe": true, "fmt": true, "ext": true, "xt": true, "store": true, "config": true, "client": true, "ordersstore": true, "ordersconfig": true, "ordersclient": true, "itemsstore": true, "itemsconfig": true, "itemsclient": true, "context": true, "kessoku": true, "reflect": true}
 
 var kwPre = map[string]bool{}
 
